@@ -67,7 +67,7 @@ impl Default for EpConfig {
             h1: true,
             h2: true,
             quic: false,
-            users: vec![("u0".into(), "p0".into())],
+            users: vec![("u0".into(), "p0-secret-password".into())],
             allow_private: false,
             ipv6: true,
             tcp_timeout_us: 604_800_000_000 + FRACTION_US,
@@ -230,6 +230,15 @@ pub struct Endpoint {
 }
 
 pub fn build(cfg: &EpConfig, authenticator: Option<Arc<dyn Authenticator>>) -> Result<Endpoint, String> {
+    // configured secrets must never reach the log (C20)
+    for (u, p) in &cfg.users {
+        use base64::Engine;
+        crate::sim::canary("configured-password", p);
+        crate::sim::canary(
+            "proxy-authorization",
+            &base64::engine::general_purpose::STANDARD.encode(format!("{}:{}", u, p)),
+        );
+    }
     let s = settings(cfg)?;
     let t = tls_hosts(cfg)?;
     let shutdown = Shutdown::new();
